@@ -100,7 +100,7 @@ PROPS = {
     ),
     'C02': dict(
         standins=['wnaf_contexts_precomp_3'],
-        units_quick=['scalar', 'precomp', 'wnaf'], units_thorough=['scalar', 'precomp', 'wnaf', 'curve'], timeout=600,
+        units_quick=['scalar', 'precomp', 'wnaf', 'ffdep'], units_thorough=['scalar', 'precomp', 'wnaf', 'ffdep', 'curve'], timeout=600,
         claim="PARTIAL: the plain scalar-multiplication paths (real bodies, G1 and G2): affine mul_bits / mul (double and mixed add, MSB first) and "
               "projective mul_assign (leading-zero skipping) return [k]P for every limb value k of the scalar representation (all 2^256 values, any limb "
               "count for mul_bits), by a loop invariant over ff's BitIterator contract and proved bit-decomposition lemmas. The 256-entry table path (real bodies, G1 and G2): "
@@ -116,8 +116,8 @@ PROPS = {
               "The 3-entry table path (real bodies, G1 and G2): precomp_3 stores [2^64]P, [2^128]P, [2^192]P; mul_precomp_3 builds the 16 subset sums of (P, [2^64]P, [2^128]P, [2^192]P) and returns [k]P for every 256-bit k "
               "(nibble extraction related to bit i of the four words by bit-vector lemmas over the code's own expressions).",
         not_covered=["the generic Wnaf::base<G> / Wnaf::scalar<G> are proved at the four (B, S) instances the crate's own API can produce (Vec<_>, &mut Vec<_>, &[_]); a foreign AsRef/AsMut implementation is outside the claim",
-                     "ff::BitIterator itself (dependency; contract assumed)"],
-        assumptions=[A['A3'], "ff::BitIterator contract assumed (dependency)", "group-level contracts of double / add_assign / add_assign_mixed / sub_assign are the statements of unit curve lifted through A3",
+                     "ff::BitIterator (dependency): its contract is proved for the text of the pinned registry source in unit ffdep; the precondition n <= 64 len is the type's private invariant (fields private, only new() constructs)"],
+        assumptions=[A['A3'], "ff::BitIterator: contract proved in unit ffdep on the registry source of the version pinned by Cargo.lock", "group-level contracts of double / add_assign / add_assign_mixed / sub_assign are the statements of unit curve lifted through A3",
                      "wnaf_form sees PrimeFieldRepr through integer-level contracts of is_zero / is_odd / as_ref()[0] / From<u64> / sub_noborrow / add_nocarry / div2 (those the C08 Kani harnesses prove for FrRepr / FqRepr limb-wise); "
                      "FrRepr::num_bits <= 256 (C08 harness num_bits)",
                      "wnaf_exp carries two ghost (erased) parameters, the base point and the window, that its contract refers to",
@@ -154,13 +154,16 @@ PROPS = {
                      "R15 (`&mut reader` with reader: &mut R -> explicit reborrow, std's impl Read for &mut R)"],
     ),
     'C18': dict(
-        units_quick=['order', 'recover'], units_thorough=['order', 'recover', 'tower'], timeout=600,
+        units_quick=['order', 'recover', 'mont'], units_thorough=['order', 'recover', 'mont', 'ffdep', 'tower'], timeout=900,
         claim="PARTIAL: Fq::sgn0 = parity of the canonical integer (limb-0 bit, proved with the limb-value lemma); Fq2::sgn0 = sgn0 of the first non-zero "
               "coefficient, real part first; Sgn0Result xor and negate_if exact; Ord / PartialOrd for Fq2 = lexicographic order with the u-coefficient most "
               "significant; Fq2::legendre = Legendre symbol of the norm; the two exponent literals of Fq2::sqrt equal (q-3)/4 and (q-1)/2 and sqrt(0) = 0; "
               "negation flips parity and order of every non-zero y (proved from q odd); get_point_from_x returns a point on the curve with the given x "
-              "whose y is the larger root iff the flag is set, or None when x^3+b has no root.",
-        not_covered=["Fq / Fr sqrt, legendre and Ord are derive-generated (ff_derive): their contracts are assumed here (A8, C08)",
+              "whose y is the larger root iff the flag is set, or None when x^3+b has no root. "
+              "Derive-generated code (unit mont, real bodies): Fq / Fr cmp = order of the canonical integers; Fq / Fr legendre = classification of x^((q-1)/2) into 0 / 1 / other; "
+              "Fq::sqrt (q = 3 mod 4) returns None exactly when x^((q-1)/2) = -1 and otherwise y = x^((q+1)/4) with y^2 = x * x^((q-1)/2), "
+              "the exponent literals being (q-3)/4 and (q-1)/2 (closed terms) and Field::pow (text of the pinned ff-zeroize source) being x^e by square-and-multiply over ff's BitIterator (unit ffdep).",
+        not_covered=["Euler's criterion (A8) is what turns `x^((q-1)/2) in {0, 1}` into `x is a square` and the sqrt statement into y^2 = x; Fr::sqrt (Tonelli-Shanks, r = 1 mod 4) is not under contract",
                      "that Fq2::sqrt (Algorithm 9) returns a root exactly when one exists (A8'): only its constants and the zero case are proved"],
         assumptions=[A['A8'], "A8' correctness of Adj/Rodriguez-Henriquez Algorithm 9", A['D_FQ'], "(-y)^2 = y^2 in Fq2 stated as a ring fact (lemma_neg_sq2)", A['TOOLS']],
     ),
@@ -177,7 +180,7 @@ PROPS = {
         assumptions=[A['A8'], A['D_FQ'], "laws of fpow / f2pow (specs/fpow.vrs: ring theory)", A['TOOLS'], "rewrites R11 (slice patterns), R4 (slice loops), R9a (terminal panic)"],
     ),
     'C08': dict(
-        units_quick=['kani:limbs', 'consts', 'mont'], units_thorough=['kani:limbs', 'consts', 'mont'], timeout=3000,
+        units_quick=['kani:limbs', 'consts', 'mont', 'ffdep'], units_thorough=['kani:limbs', 'consts', 'mont', 'ffdep'], timeout=3000,
         technique="contract-based deductive verification: Verus contracts with generated checkpoint assertions on the fully unrolled Montgomery code of ff_derive's expansion (Fq, Fr); "
                   "contract harnesses checked by Kani/CBMC on the compiled crate for the limb layer: full 384-/256-bit input domain, loops bounded by the limb count with unwinding assertions (complete, not bounded)",
         claim="limb layer (CBMC, bit-precise, every input): for FqRepr (6 limbs) and FrRepr (4 limbs) is_zero, is_odd/is_even, add_nocarry and sub_noborrow (within their "
@@ -191,8 +194,9 @@ PROPS = {
               "is_zero and == decide mv == 0 resp. equality of values, into_repr returns the canonical integer mv(x) (< q), from_repr(r) succeeds exactly for r < q with mv == r, "
               "cmp is the order of the canonical integers; inverse (binary extended Euclid, loop invariant b * a == u * R^2 and c * a == v * R^2 mod q, kept as an opaque predicate) returns None exactly for 0 "
               "and otherwise y with mv(y) mv(x) == 1 mod q (partial correctness: termination of the Euclid loops needs q prime, A1, and is not proved). "
+              "pow (ff's generic square-and-multiply, text of the pinned dependency source) returns x^e for every exponent given as limbs; legendre / Fq::sqrt as stated under C18. "
               "These are the contracts (D_FQ) every unit above the limb layer assumes of Fq / Fr.",
-        not_covered=["termination of inverse (needs gcd(a, q) = 1, i.e. A1)", "pow / sqrt / legendre (ff's generic square-and-multiply over the exponent words), random, read/write_be/le: not under contract (assumed where used: A8, D1)",
+        not_covered=["termination of inverse (needs gcd(a, q) = 1, i.e. A1)", "Fr::sqrt (Tonelli-Shanks), random, read/write_be/le: not under contract (assumed where used: D1)",
                      "the values of GENERATOR, ROOT_OF_UNITY (MODULUS, R, R2, INV, B_COEFF, NEGATIVE_ONE and the from_okm shift constants ARE checked: unit consts resp. by(compute) in unit mont)"],
         assumptions=["Kani 0.68 / CBMC 6.11; the unsafe transmute constructor pairing::bls12_381::transmute::{fq, fr} and mem::transmute_copy are used to move raw limbs in and out", "rustc codegen (MIR -> goto)",
                      "unit mont sees the representation type through the limb-level contracts that kani:limbs proves (lt / gt / eq / cmp = integer order, add_nocarry, sub_noborrow, mul2, is_zero, From<u64>), and ff's mac_with_carry / adc through theirs",
